@@ -70,7 +70,7 @@ RECURSIVE Eval(_, _, _), EvalAnd(_, _, _, _), EvalOr(_, _, _, _, _)
 
 \* result of q for the single incoming binding b
 Eval1(q, b, Facts) ==
-  CASE q.t = "pattern" -> Ok(PatternOn(Norm(q.p), b, Facts))
+  CASE q.t = "pattern" -> Ok(PatternOn(q.p, b, Facts))
     [] q.t = "and" -> EvalAnd(q.qs, 1, Single(b), Facts)
     [] q.t = "or" -> EvalOr(q.qs, 1, b, q.sc, Facts)
     [] q.t = "not" -> LET r == Eval(q.q, Single(b), Facts)
@@ -96,6 +96,15 @@ EvalOr(qs, i, b, sc, Facts) ==
           ELSE IF sc /\ DOMAIN r.bag # {} THEN r
           ELSE LET rest == EvalOr(qs, i + 1, b, sc, Facts)
                IN IF rest.err THEN Err ELSE Ok(BagPlus(r.bag, rest.bag))
+
+\* a tree as deserialised from JSON (patterns with arrays as sequences) in internal form
+RECURSIVE NormTree(_)
+NormTree(q) ==
+  CASE q.t = "pattern" -> [t |-> "pattern", p |-> Norm(q.p)]
+    [] q.t = "and" -> [t |-> "and", qs |-> [i \in DOMAIN q.qs |-> NormTree(q.qs[i])]]
+    [] q.t = "or" -> [t |-> "or", qs |-> [i \in DOMAIN q.qs |-> NormTree(q.qs[i])], sc |-> q.sc]
+    [] q.t = "not" -> [t |-> "not", q |-> NormTree(q.q)]
+    [] OTHER -> q
 
 \* queries are parsed (and scripts compiled) before anything is evaluated
 RECURSIVE HasSyntax(_)
